@@ -1,4 +1,4 @@
-import ParolModel.Proofs.FrontToBack
+import ParolModel.Proofs.FrontToBackLf
 import ParolModel.Props.C01c
 import ParolModel.Props.C09
 import ParolModel.Props.C10
@@ -30,21 +30,22 @@ Hypotheses of `parol_ll_end_to_end`:
   a production, which gives `st ∈ variableNames E`, the hypothesis of C09/C10 — finding F23),
   canonicalisation finished, the three grammar checks passed on the canonicalised grammar, left
   factoring finished, the lookahead calculation succeeded within `K`.
-* `finalCheckB E st fuel = true` — **decidable** (one evaluation of the verified grammar checks of
-  C11): the LEFT-FACTORED grammar still passes the three checks (productive, reachable, no left
-  recursion). parol checks *before* left factoring and not again; that left factoring preserves the
-  three properties is true on paper but is not proved here (`LeftFactorKeepsChecks`, the one missing
-  link; `parol_ll_end_to_end_of_link` shows it is the only one). The tie's oracle evaluates
-  `finalCheckB` on every generated case (`parol-ll-check`).
 * `o.maxDepth = none` for the completeness direction, as in C01b/C01c (with a depth limit the
   parser refuses deep sentences by design; soundness needs no option hypothesis:
   `parol_ll_sound`).
 
-No hypothesis on `K`, on the fuel (the theorems are about successful runs), on names (helper-name
-freshness is C09/C10's business and is used through their theorems), or on the terminal numbering
-(`lang_numberG` needs no injectivity; `parol_ll_numbering_injective` proves it anyway). The drain
-order of `group_by`'s hash map in left factoring is the identity in `parolLL`; by
-`leftFactor_group_order_indep` (C24) every other order gives the same result. -/
+Nothing else. In particular parol checks the grammar (productive, reachable, no left recursion)
+*before* left factoring and not again, while the LL(k) analysis (C05/C06/C07, `PipelineHyp` of
+C01c) needs these properties of the LEFT-FACTORED grammar: `left_factor_keeps_class` proves that
+left factoring preserves them (a suffix non-terminal `A'` is productive and reachable because the
+alternatives it was cut from were; a rank function of the left-corner relation is extended to `A'`),
+so the link is a theorem, not a hypothesis. No hypothesis on `K`, on the fuel (the theorems are
+about successful runs), on names (helper-name freshness is C09/C10's business and is used through
+their theorems), or on the terminal numbering (`lang_numberG` needs no injectivity;
+`parol_ll_numbering_injective` proves it anyway). The drain order of `group_by`'s hash map in left
+factoring is the identity in `parolLL`; by `leftFactor_group_order_indep` (C24) every other order
+gives the same result. (`finalCheckB`, the executable re-check of the left-factored grammar, is kept
+in the tie's oracle as a redundant sanity check.) -/
 namespace ParolModel
 open KS
 
@@ -114,20 +115,32 @@ theorem parol_ll_grammar_lang {E : List EProd} {st : Name} {fuel : Nat} {B1 : Li
     · rintro ⟨w, rfl, hw⟩; exact ⟨w, (key w).1 hw, rfl⟩
     · rintro ⟨w, hw, rfl⟩; exact ⟨w, rfl, (key w).2 hw⟩
 
-/-- The generated tables, under the hypothesis on the left-factored grammar: exact lookahead
-    automata, sound production numbers, and the production table denotes the transformed grammar. -/
+/-- **Left factoring preserves what the grammar checks established** (the link between C11's
+    checks, made before left factoring, and the class in which C05/C06/C07 are proved, needed after
+    it): if the numbered grammar before left factoring passes parol's three checks, the numbered
+    left-factored grammar is productive, reachable and free of (hidden) left recursion. -/
+theorem left_factor_keeps_class {B0 B1 : List RuleN} {st : Name} {fuel : Nat}
+    (hchk : checkGrammar (numberG B0 st) true [] = .ok .passed)
+    (hlf : leftFactor id fuel B0 = some B1) :
+    KS.Productive (numberG B1 st) ∧ KS.Reachable (numberG B1 st) ∧ KS.NoLeftRec (numberG B1 st) := by
+  obtain ⟨hprod, hreach, hnlr⟩ := Panic.pre_established_analysis _ hchk
+  have hw0 : WFN B0 st := wfn_of_ks (indexIn_injOn (ntNames B0 st))
+    (fun _ hx => mem_ntNames.2 (.inr hx)) (mem_ntNames.2 (.inl rfl)) hprod hreach hnlr
+  exact ks_of_wfn (fun _ hx => mem_ntNames.2 (.inr hx)) (leftFactor_wfn fuel B0 B1 hlf hw0)
+
+/-- The generated tables: exact lookahead automata, sound production numbers, and the production
+    table denotes the transformed grammar in parol's numbering. -/
 theorem parol_ll_tables {E : List EProd} {st : Name} {K fuel : Nat} {T : LLTables}
-    (h : parolLL E st K fuel = .ok T) (hfinal : finalCheckB E st fuel = true) :
+    (h : parolLL E st K fuel = .ok T) :
     ∃ B1, parolLLGrammar E st fuel = .ok B1 ∧
       SetsExact T ∧ TablesSound T ∧ gOf T = numberG B1 st := by
-  obtain ⟨_, B1, T0, _, _, _, _, _, hg, ht, rfl⟩ := parol_ll_stages h
-  have hpass : checkGrammar (numberG B1 st) true [] = .ok .passed := by
-    simpa [finalCheckB, hg] using hfinal
-  have hyp : PipelineHyp (numberG B1 st) :=
-    ⟨hpass, noEoiB_numberG B1 st, ntsDenseB_numberG B1 st⟩
-  obtain ⟨hsets, hsound, hgof⟩ := pipeline_tables_exact _ K fuel T0 hyp ht
-  exact ⟨B1, hg, setsExact_withPush B1 hsets, tablesSound_withPush B1 hsound,
-    (gOf_withPush T0 B1).trans hgof⟩
+  obtain ⟨B0, B1, T0, _, _, _, hchk, hlf, hg, ht, rfl⟩ := parol_ll_stages h
+  obtain ⟨hprod, hreach, hnlr⟩ := left_factor_keeps_class hchk hlf
+  have hd := ntsDense_of_B (ntsDenseB_numberG B1 st)
+  have hno := noEoi_of_B (noEoiB_numberG B1 st)
+  exact ⟨B1, hg, setsExact_withPush B1 (genTables_setsExact hd hno hprod hreach hnlr ht),
+    tablesSound_withPush B1 (genTables_tablesSound hd hno hprod hreach hnlr ht),
+    (gOf_withPush T0 B1).trans (genTables_facts hd ht).gof⟩
 
 /-- **C01, front to back** — *"the generated parser reports success if and only if the sequence is
     a sentence of the grammar"*, for the grammar as the user wrote it: whenever the model of parol's
@@ -138,10 +151,10 @@ theorem parol_ll_tables {E : List EProd} {st : Name} {K fuel : Nat} {T : LLTable
     `LLKParser::parse_into` running on `T` succeeds iff the significant token types are the image,
     under the parser's terminal numbering, of a sentence of `E` as written. -/
 theorem parol_ll_end_to_end (E : List EProd) (st : Name) (K fuel : Nat) (T : LLTables)
-    (h : parolLL E st K fuel = .ok T) (hfinal : finalCheckB E st fuel = true)
+    (h : parolLL E st K fuel = .ok T)
     (toks : List MTok) (o : Opts) (ho : o.maxDepth = none) :
     (∃ fuel', (llRun T o fuel' toks).res = .ok) ↔ ParolSentence E st fuel (sigTypes toks) := by
-  obtain ⟨B1, hg, hsets, hsound, hgof⟩ := parol_ll_tables h hfinal
+  obtain ⟨B1, hg, hsets, hsound, hgof⟩ := parol_ll_tables h
   have := ll_accepts_iff T hsound (tablesExact_of_sets T hsets) o toks ho
   rw [hgof] at this
   exact this.trans (parol_ll_grammar_lang hg _)
@@ -167,12 +180,12 @@ theorem parol_ll_numbering_injective {E : List EProd} {st : Name} {fuel : Nat} {
     terminal numbers) is accepted iff `w` is a sentence of `E`. No side condition on `w`: terminals
     foreign to the grammar are mapped to a number no production carries. -/
 theorem parol_ll_accepts_word (E : List EProd) (st : Name) (K fuel : Nat) (T : LLTables)
-    (h : parolLL E st K fuel = .ok T) (hfinal : finalCheckB E st fuel = true)
+    (h : parolLL E st K fuel = .ok T)
     (w : List Nat) (toks : List MTok) (hw : sigTypes toks = w.map (parolTermNum E st fuel))
     (o : Opts) (ho : o.maxDepth = none) :
     (∃ fuel', (llRun T o fuel' toks).res = .ok) ↔ LangE E st w := by
   obtain ⟨_, B1, _, _, _, _, _, _, hg, _, _⟩ := parol_ll_stages h
-  rw [parol_ll_end_to_end E st K fuel T h hfinal toks o ho, hw]
+  rw [parol_ll_end_to_end E st K fuel T h toks o ho, hw]
   constructor
   · rintro ⟨w', hw', e⟩
     rw [parol_ll_numbering_injective hg hw' e]
@@ -183,43 +196,13 @@ theorem parol_ll_accepts_word (E : List EProd) (st : Name) (K fuel : Nat) (T : L
 /-- Soundness needs no option hypothesis: with a depth limit, trimming or recovery the generated
     parser still accepts only sentences of the grammar as written. -/
 theorem parol_ll_sound (E : List EProd) (st : Name) (K fuel : Nat) (T : LLTables)
-    (h : parolLL E st K fuel = .ok T) (hfinal : finalCheckB E st fuel = true)
+    (h : parolLL E st K fuel = .ok T)
     (toks : List MTok) (o : Opts) (fuel' : Nat) (hok : (llRun T o fuel' toks).res = .ok) :
     ParolSentence E st fuel (sigTypes toks) := by
-  obtain ⟨B1, hg, _, hsound, hgof⟩ := parol_ll_tables h hfinal
+  obtain ⟨B1, hg, _, hsound, hgof⟩ := parol_ll_tables h
   have := ll_sound T o fuel' toks hsound hok
   rw [hgof] at this
   exact (parol_ll_grammar_lang hg _).1 this
-
-/-! ## the one missing link -/
-
-/-- **Full statement of the missing link (not proved)**: left factoring preserves the verdict
-    `passed` of the three grammar checks. True on paper (a suffix non-terminal `A'` is productive
-    and reachable because the alternatives it was cut from were, and a left-corner cycle through
-    `A'` yields one through `A` in the original grammar), but it needs three new invariants carried
-    through `factor_out_prefix`, the fold of one round and the loop, which C10 does not provide. -/
-def LeftFactorKeepsChecks : Prop :=
-  ∀ (B0 B1 : List RuleN) (st : Name) (fuel : Nat),
-    checkGrammar (numberG B0 st) true [] = .ok .passed → leftFactor id fuel B0 = some B1 →
-    checkGrammar (numberG B1 st) true [] = .ok .passed
-
-/-- With that link the decidable hypothesis disappears: `parolLL E st K fuel = .ok T` alone gives
-    the end-to-end statement. -/
-theorem parol_ll_end_to_end_of_link (hlink : LeftFactorKeepsChecks)
-    (E : List EProd) (st : Name) (K fuel : Nat) (T : LLTables)
-    (h : parolLL E st K fuel = .ok T) (toks : List MTok) (o : Opts) (ho : o.maxDepth = none) :
-    (∃ fuel', (llRun T o fuel' toks).res = .ok) ↔ ParolSentence E st fuel (sigTypes toks) := by
-  obtain ⟨B0, B1, _, _, _, _, hchk, hlf, hg, _, _⟩ := parol_ll_stages h
-  have hfinal : finalCheckB E st fuel = true := by
-    simp [finalCheckB, hg, hlink B0 B1 st fuel hchk hlf]
-  exact parol_ll_end_to_end E st K fuel T h hfinal toks o ho
-
-/-- The full C01 statement for the whole generator + runtime at model level, without the decidable
-    hypothesis (= `parol_ll_end_to_end_of_link` given `LeftFactorKeepsChecks`). -/
-def ParolLLEndToEnd : Prop :=
-  ∀ (E : List EProd) (st : Name) (K fuel : Nat) (T : LLTables), parolLL E st K fuel = .ok T →
-    ∀ (toks : List MTok) (o : Opts), o.maxDepth = none →
-      ((∃ fuel', (llRun T o fuel' toks).res = .ok) ↔ ParolSentence E st fuel (sigTypes toks))
 
 /-! ## non-vacuity
 
@@ -246,7 +229,8 @@ def tOptRep : LLTables :=
 
 theorem eOptRep_tables : parolLL eOptRep "S".toList 2 30 = .ok tOptRep := by decide
 
-theorem eOptRep_final : finalCheckB eOptRep "S".toList 30 = true := by decide
+/-- (redundant, by `left_factor_keeps_class`) the left-factored grammar passes the re-check -/
+example : finalCheckB eOptRep "S".toList 30 = true := by decide
 
 /-- the numbering: "a" ↦ 5, "b" ↦ 7, "c" ↦ 6 -/
 example : [5, 6, 7].map (parolTermNum eOptRep "S".toList 30) = [5, 7, 6] := by decide
@@ -255,7 +239,7 @@ example : [5, 6, 7].map (parolTermNum eOptRep "S".toList 30) = [5, 7, 6] := by d
 example (l : List Nat) (o : Opts) (ho : o.maxDepth = none) :
     (∃ fuel, (llRun tOptRep o fuel (exToks l)).res = .ok) ↔
       ParolSentence eOptRep "S".toList 30 (sigTypes (exToks l)) :=
-  parol_ll_end_to_end eOptRep "S".toList 2 30 tOptRep eOptRep_tables eOptRep_final _ o ho
+  parol_ll_end_to_end eOptRep "S".toList 2 30 tOptRep eOptRep_tables _ o ho
 
 /-- `a b c c` (token types 5 7 6 6) and `a` are accepted, `b` and `a c b` are not -/
 example : (llRun tOptRep ⟨false, false, none⟩ 100 (exToks [5, 7, 6, 6])).res = .ok ∧
